@@ -88,8 +88,8 @@ func TestVerifPubSubSplit(t *testing.T) {
 		t.Fatal(err)
 	}
 	defer helper.Close()
-	// no heartbeats on the helper: its answers are read with readValidate, which would take the
-	// 30 s "_heartbeat_" for the answer to a PUB when a loaded machine stretches the run past 30 s
+	// no heartbeats on the helper connection: its answers are read with readValidate, and on a loaded machine the
+	// scenario can outlast the heartbeat interval (seen once: "_heartbeat_" instead of "OK" after 30 s)
 	identify(t, helper, map[string]interface{}{"heartbeat_interval": -1}, frameTypeResponse)
 	// next frame on the dual connection: ("msg", id) | ("resp", text) | ("err", text)
 	next := func() (string, string) {
